@@ -194,7 +194,21 @@ struct SliceRun {
 /// `release`: if set, all workers are held in `new_thread_state` until every one of them has
 /// arrived (spin barrier) and then start after a per-thread seeded delay, so that they reach the
 /// shared counter at the same moment, in varying orders.
-fn run_slice(n: usize, threads: usize, fail: &[usize], stop: StopHow, spin: u32, release: Option<&[u32]>) -> SliceRun {
+/// `fail_thread = Some((t, k))`: the consume call fails in worker `t` once that worker has
+/// completed `k` calls (whatever item it holds then); `sleep_us`: every call sleeps that long
+/// (slow consumers: the other workers are still busy when one fails).
+#[allow(clippy::too_many_arguments)]
+fn run_slice(
+    n: usize,
+    threads: usize,
+    fail: &[usize],
+    stop: StopHow,
+    spin: u32,
+    release: Option<&[u32]>,
+    fail_thread: Option<(usize, usize)>,
+    sleep_us: u64,
+) -> SliceRun {
+    let per_thread_calls: Vec<AtomicUsize> = (0..threads.max(1)).map(|_| AtomicUsize::new(0)).collect();
     // spare capacity: should the code under test ever hand out an index past the slice, the
     // reference still points into this allocation
     let mut input: Vec<u64> = Vec::with_capacity(n + 64);
@@ -235,7 +249,11 @@ fn run_slice(n: usize, threads: usize, fail: &[usize], stop: StopHow, spin: u32,
                 for _ in 0..spin {
                     std::hint::spin_loop();
                 }
-                let ok = !fail_set.contains(&index);
+                if sleep_us > 0 {
+                    std::thread::sleep(std::time::Duration::from_micros(sleep_us));
+                }
+                let done_before = per_thread_calls.get(*thread_id).map_or(0, |c| c.fetch_add(1, Ordering::SeqCst));
+                let ok = !fail_set.contains(&index) && fail_thread != Some((*thread_id, done_before));
                 calls.lock().unwrap().push((index, *thread_id, ok));
                 if stop == StopHow::ByConsume(index) {
                     should_interrupt.store(true, Ordering::SeqCst);
@@ -380,7 +398,7 @@ fn do_slice_released(
     with_model: bool,
     release: Option<&[u32]>,
 ) {
-    let run = run_slice(n, threads, fail, stop, spin, release);
+    let run = run_slice(n, threads, fail, stop, spin, release, None, 0);
     if release.is_some() {
         rep.bucket("slice:workers-released-together");
     }
@@ -472,6 +490,88 @@ fn do_slice_released(
         rep.case(&op, &obs, true);
     } else {
         rep.oracle_only(&desc, true);
+    }
+}
+
+/// most consume calls any OTHER worker completes after the first failed call was logged
+fn max_after_failure(run: &SliceRun) -> Option<(usize, usize, usize)> {
+    let pos = run.log.iter().position(|(_, e)| matches!(e, verif::Event::ConsumedErr(_)))?;
+    let failing = run.log[pos].0;
+    let mut after = vec![0usize; run.threads];
+    for (t, e) in &run.log[pos + 1..] {
+        if *t != failing && *t < run.threads && matches!(e, verif::Event::ConsumedOk(_) | verif::Event::ConsumedErr(_)) {
+            after[*t] += 1;
+        }
+    }
+    let (t, m) = after.iter().enumerate().max_by_key(|(_, c)| **c).map(|(t, c)| (t, *c))?;
+    Some((failing, t, m))
+}
+
+/// Early stop on the real code: `consume` fails in worker `fail_thread` (every thread position is
+/// tried) while all workers are slow, so the others are busy when it happens. The theorem
+/// `early_stop` allows every other worker ONE more call — the item it already holds; the log is
+/// written right after each action, so one more is tolerated for a worker that read the flag just
+/// before it was stored, and `SLACK` more for a failing worker that is descheduled between its
+/// failed call and its store. A run over the bound is repeated; only a bound exceeded three times
+/// in a row is reported (a worker that keeps consuming does so every time).
+fn do_slice_failing_thread(rep: &mut Report, n: usize, threads: usize, fail_thread: usize, after_calls: usize, sleep_us: u64) {
+    const SLACK: usize = 6;
+    let desc = format!("slice n={n} threads={threads} consume fails in thread {fail_thread} at its call #{after_calls} (slow consumers {sleep_us}us)");
+    let key = format!("slice-early-stop n={n} threads={threads} failing-thread={fail_thread} at-call={after_calls}");
+    rep.bucket("slice:failure-in-chosen-thread");
+    let mut worst: Option<String> = None;
+    for attempt in 0..3 {
+        let run = run_slice(n, threads, &[], StopHow::Never, 0, None, Some((fail_thread, after_calls)), sleep_us);
+        rep.oracle_checked();
+        let failed_call = run.calls.iter().any(|c| !c.2);
+        let mut problem: Option<String> = None;
+        if run.panicked {
+            problem = Some("panicked".into());
+        } else if failed_call != run.result_err {
+            problem = Some(format!("a consume call failed: {failed_call}, result is {}", if run.result_err { "Err" } else { "Ok" }));
+        } else if let Some(i) = run.counts.iter().position(|c| *c > 1) {
+            problem = Some(format!("item {i} consumed {} times", run.counts[i]));
+        }
+        let mut over = false;
+        if let Some((failing, t, m)) = max_after_failure(&run) {
+            rep.bucket("slice:early-stop-bound-checked");
+            if m > 2 + SLACK {
+                over = true;
+                let total: usize = run.counts.iter().sum();
+                worst = Some(format!(
+                    "consume failed in thread {failing}, yet thread {t} completed {m} more calls afterwards ({total} of {n} items consumed in total): no early stop (bound: the one item it holds, +1 for a flag read just before the store)"
+                ));
+            }
+        } else if failed_call {
+            problem = Some("a consume call failed but the event log has no ConsumedErr".into());
+        }
+        // correspondence for the first attempt: the linearised log must be a run of the Lean system
+        if attempt == 0 {
+            let (tokens, _) = match linearize(&run) {
+                Ok(t) => (t, true),
+                Err(raw) => (raw, false),
+            };
+            let op = format!("slice {n} {threads}{}", tokens.iter().map(|t| format!(" {t}")).collect::<String>());
+            let mut cs = run.calls.clone();
+            cs.sort();
+            let shown: Vec<String> = cs.iter().map(|(i, t, ok)| format!("{i}:{t}:{}", *ok as u8)).collect();
+            let obs = format!(
+                "accepted consumed={} result={} done=1",
+                if shown.is_empty() { "-".to_string() } else { shown.join(",") },
+                if run.panicked { "panic" } else if run.result_err { "err" } else { "ok" }
+            );
+            rep.case(&op, &obs, true);
+        }
+        if let Some(p) = problem {
+            report_fail(rep, &key, &p, &format!("slice {n} {threads} W{fail_thread}:{after_calls}:{sleep_us}"));
+            return;
+        }
+        if !over {
+            return;
+        }
+    }
+    if let Some(w) = worst {
+        report_fail(rep, &key, &format!("{desc}: {w}"), &format!("slice {n} {threads} W{fail_thread}:{after_calls}:{sleep_us}"));
     }
 }
 
@@ -703,6 +803,13 @@ fn main() {
                     let n: usize = a[1].parse().unwrap_or(0);
                     let t: usize = a[2].parse().unwrap_or(1);
                     let fail: Vec<usize> = a[3..].iter().filter_map(|x| x.strip_prefix('R')).filter_map(|x| x.split_once(':')).filter_map(|x| x.1.parse().ok()).collect();
+                    if let Some(w) = a[3..].iter().find_map(|x| x.strip_prefix('W')) {
+                        let p: Vec<usize> = w.split(':').filter_map(|x| x.parse().ok()).collect();
+                        if p.len() == 3 {
+                            do_slice_failing_thread(&mut rep, n, t.max(2), p[0], p[1], p[2] as u64);
+                        }
+                        continue;
+                    }
                     for i in 0..400u32 {
                         let delays: Vec<u32> = (0..t.max(1)).map(|_| r.below(1 + (i as u64 % 7) * 40) as u32).collect();
                         do_slice_released(&mut rep, n, t.max(1), &fail, StopHow::Never, 0, n <= 300, Some(&delays));
@@ -780,6 +887,17 @@ fn main() {
                 }
             }
         }
+    }
+    // early stop for a failure in every thread position, slow consumers
+    for threads in 2..=if args.thorough { 8usize } else { 6 } {
+        for fail_thread in 0..threads {
+            let n = 150;
+            do_slice_failing_thread(&mut rep, n, threads, fail_thread, r.usize(2), 400);
+        }
+    }
+    for _ in 0..args.budget(6, 200) {
+        let threads = 2 + r.usize(7);
+        do_slice_failing_thread(&mut rep, 60 + r.usize(200), threads, r.usize(threads), r.usize(4), 200 + r.below(600));
     }
     // many tiny rounds with all workers released at the same moment in seeded orders: a claim of
     // an index that is not ONE atomic read-modify-write (check-then-act) shows up here as an
